@@ -50,12 +50,18 @@ fn fft_scenario<B: Fld, E: FieldElement<BaseField = B>>(n: usize) -> Vec<u8> {
     fft::evaluate_poly(&mut a, &tw);
     let b = fft::evaluate_poly_with_offset(&p, &tw, B::GENERATOR, 2);
     let b8 = fft::evaluate_poly_with_offset(&p, &tw, B::GENERATOR, 8);
+    // short polynomials over large domains: the domain reaches the concurrency threshold long before the polynomial
+    let big: Vec<Vec<E>> = if n <= 64 { [32usize, 64, 128].iter().map(|b| fft::evaluate_poly_with_offset(&p, &tw, B::GENERATOR, *b)).collect() } else { vec![] };
     let mut c = a.clone();
     fft::interpolate_poly(&mut c, &itw);
     let mut d = p.clone();
     fft::interpolate_poly_with_offset(&mut d, &itw, B::GENERATOR);
     let deg = fft::infer_degree(&a, B::ONE);
-    digest(&[bytes_of(&tw), bytes_of(&itw), bytes_of(&a), bytes_of(&b), bytes_of(&b8), bytes_of(&c), bytes_of(&d), deg.to_le_bytes().to_vec()])
+    let mut parts = vec![bytes_of(&tw), bytes_of(&itw), bytes_of(&a), bytes_of(&b), bytes_of(&b8), bytes_of(&c), bytes_of(&d), deg.to_le_bytes().to_vec()];
+    for v in big.iter() {
+        parts.push(bytes_of(v));
+    }
+    digest(&parts)
 }
 
 fn utils_scenario<B: Fld, E: FieldElement<BaseField = B>>(n: usize) -> Vec<u8> {
@@ -154,6 +160,30 @@ fn prove_scenario<B: Fld, H: ElementHasher<BaseField = B> + Send + Sync>(n: usiz
     prove_scenario_c::<B, H>(n, aux, ext, blowup, 8)
 }
 
+fn prove_scenario_opts<B: Fld, H: ElementHasher<BaseField = B> + Send + Sync>(n: usize, blowup: usize) -> Vec<u8> {
+    let spec = AirSpec {
+        n,
+        rules: vec![Rule::Pow { d: 2, c: 1 }, Rule::Rot { order: 4 }],
+        exemptions: 1,
+        asserts: vec![ASpec { col: 0, kind: AKind::Single(0) }, ASpec { col: 1, kind: AKind::Periodic { first: 0, stride: 4 } }],
+        aux: Aux::None,
+        aux_pow: 1,
+        tail: Tail::Continue,
+        init: 3,
+    };
+    let st = Statement { spec: Arc::new(spec), opts: Opts { queries: 8, blowup, grinding: 0, ext: 1, folding: 4, rem_deg: 7 }, seed: 7, meta: vec![] };
+    let (cols, _vals, pubs) = build_statement::<B>(&st);
+    let (out, _) = prove_with::<B, H, Coin<H>>(&st, &cols, &pubs, None);
+    let proof = match out {
+        ProveOutcome::Proof(p) => *p,
+        other => return format!("proof not produced: {:?}", other).into_bytes(),
+    };
+    let mut parts = vec![proof.context.to_bytes(), proof.commitments.to_bytes(), proof.ood_frame.to_bytes()];
+    let v = verify_with::<B, H, Coin<H>>(proof, &pubs, &lenient());
+    parts.push(vec![(v == VerifyOutcome::Accept) as u8]);
+    digest(&parts)
+}
+
 /// `cycle`: length of the periodic column used by the second transition rule (short cycles divide every
 /// fragment of the constraint evaluation table, long ones straddle fragments)
 fn prove_scenario_c<B: Fld, H: ElementHasher<BaseField = B> + Send + Sync>(n: usize, aux: Aux, ext: u8, blowup: usize, cycle: usize) -> Vec<u8> {
@@ -222,6 +252,10 @@ pub fn scenarios(thorough: bool) -> Vec<Scenario> {
     add("prove/f64/blake3/n4096/aux+lagrange/quadratic".into(), Box::new(|| prove_scenario::<B64, hashers::Blake3_256<B64>>(4096, Aux::SumLagrange { cols: 2, rands: 3 }, 2, 4)));
     // tiny traces: every per-batch minimum of the parallel helpers is larger than the data, and large pools have
     // more threads than rows
+    // tiny traces under large blowups (the LDE domain is large although the polynomials are short)
+    for (n, blowup) in [(8usize, 128usize), (16, 64), (32, 32)] {
+        add(format!("prove/f64/blake3/tiny/n{n}/blowup{blowup}"), Box::new(move || prove_scenario_opts::<B64, hashers::Blake3_256<B64>>(n, blowup)));
+    }
     for n in [8usize, 16, 32, 64, 128, 256] {
         add(format!("prove/f64/blake3/tiny/n{n}"), Box::new(move || prove_scenario_c::<B64, hashers::Blake3_256<B64>>(n, Aux::None, 1, 4, 8.min(n))));
         add(format!("prove/f128/sha3/tiny/aux/n{n}"), Box::new(move || prove_scenario_c::<B128, hashers::Sha3_256<B128>>(n, Aux::Sum { cols: 1, rands: 1 }, 1, 8, 4)));
